@@ -18,10 +18,19 @@ Theorem C10_only_matched : forall M n rp, Forall (fun p => M p = true) (fst (gon
 Proof. exact gone_matched. Qed.
 Print Assumptions C10_only_matched.
 
+(* "An entry that cannot be removed ... makes find's exit status non-zero, and does not stop the walk": the failure flag of the
+   run is set exactly when some matched directory could not be emptied ([stuck]: a directory for which the expression is true
+   and below which something is left) - and C10_exact holds whatever fails: everything else that is matched is still removed. *)
+Theorem C10_failure_reported : forall M n, wf n ->
+  failed (delete_run M [] n {| removed := []; failed := false |}) = stuck M [] n.
+Proof. exact delete_failure. Qed.
+Print Assumptions C10_failure_reported.
+
 (* non-vacuity: r/{1/{11,12}, 2}; matched: 1, 11, 2 -> 11 and 2 removed, 1 not (12 remains), failure reported *)
 Example C10_witness :
   let t := Dir [(1, Dir [(11, File); (12, File)]); (2, File)] in
   let M := fun rp : rpath => match rp with [1] | [11; 1] | [2] => true | _ => false end in
   let r := delete_run M [] t {| removed := []; failed := false |} in
-  removed r = [[11; 1]; [2]] /\ failed r = true /\ wf t.
+  removed r = [[11; 1]; [2]] /\ failed r = true /\ stuck M [] t = true /\ wf t /\
+  stuck (fun rp => match rp with [11; 1] | [2] => true | _ => false end) [] t = false.
 Proof. vm_compute. repeat split; repeat constructor; cbn; intuition discriminate. Qed.
